@@ -23,12 +23,7 @@ var intrinsicNames = map[string]bool{
 	"zzIsConst": true, "zzStrEq": true, "zzDigest": true,
 }
 
-func (p *Path) isIntrinsic(fn *ssa.Function) bool {
-	if !intrinsicNames[fn.Name()] {
-		return false
-	}
-	return fn.Signature.Recv() == nil
-}
+func (p *Path) isIntrinsic(fn *ssa.Function) bool { return p.eng.meta(fn).intrinsic }
 
 func (p *Path) nondet(tag string, sort int) *Term {
 	k := p.nondetCount[tag]
@@ -78,6 +73,7 @@ func (p *Path) intrinsic(g *G, fr *Frame, fn *ssa.Function, args []Value) (Value
 		if c.IsTrue() {
 			return nil, stNext
 		}
+		p.flushAsserts()
 		if c.IsFalse() {
 			p.end("infeasible", "assume(false)")
 		}
@@ -209,11 +205,52 @@ func (p *Path) doAssert(c *Term, id string) {
 	if c.IsTrue() {
 		return
 	}
-	neg := p.tc.Not(c)
+	if c.IsFalse() {
+		p.flushAsserts()
+		p.checkAssertNow(c, id)
+		return
+	}
+	// Deferred: assertions are decided in batches (one query for the disjunction of
+	// their negations).  Sound because every extension of the current path is explored
+	// and each carries the pending assertions; the batch is flushed before anything
+	// other than a forking decision strengthens the path condition.
+	p.pendingAsserts = append(p.pendingAsserts, pendingAssert{c, id})
+	if len(p.pendingAsserts) >= 64 {
+		p.flushAsserts()
+	}
+}
+
+type pendingAssert struct {
+	c  *Term
+	id string
+}
+
+func (p *Path) flushAsserts() {
+	if len(p.pendingAsserts) == 0 {
+		return
+	}
+	pend := p.pendingAsserts
+	p.pendingAsserts = nil
+	anyFail := p.tc.Bool(false)
+	for _, a := range pend {
+		anyFail = p.tc.Or(anyFail, p.tc.Not(a.c))
+	}
 	if p.eng.cfg.CrossCheck {
-		as := append(append([]*Term{}, p.pcs...), neg)
+		as := append(append([]*Term{}, p.pcs...), anyFail)
 		p.assertQueries = append(p.assertQueries, standaloneScript(as, ""))
 	}
+	r := p.sol.Check(anyFail)
+	if r == "unsat" {
+		return
+	}
+	// some assertion can fail (or the solver gave up): decide them one by one
+	for _, a := range pend {
+		p.checkAssertNow(a.c, a.id)
+	}
+}
+
+func (p *Path) checkAssertNow(c *Term, id string) {
+	neg := p.tc.Not(c)
 	r, model := p.sol.CheckModel(neg, p.nondets)
 	switch r {
 	case "sat":
